@@ -69,7 +69,6 @@ RegOut(P, reg) == IF P.refout THEN Rev(reg) ELSE reg
 (* The CRC value: output reflection first, then the output XOR. *)
 Finalise(P, reg) ==
     IF Mutant = "xor_skipped" THEN RegOut(P, reg)
-    ELSE IF Mutant = "xor_before_reflect" THEN RegOut(P, Xor(reg, P.xorout))
     ELSE Xor(RegOut(P, reg), P.xorout)
 
 ComputeWords(P, words) == Finalise(P, AbsorbWords(P, P.init, words))
@@ -133,24 +132,24 @@ RegParams(w) == [w : {w}, poly : BitVecs(w), init : BitVecs(w), refin : BOOLEAN,
                  xorout : {Zeros(w)}]
 OutVariants(Q) == {[Q EXCEPT !.refout = o, !.xorout = x] : o \in BOOLEAN, x \in BitVecs(Q.w)}
 
-VARIABLES P, dw, reg, started, ws,
-          rs      \* constant of a behaviour: the residue of every output variant (computed once)
-vars == <<P, dw, reg, started, ws, rs>>
+VARIABLES P, dw, reg, started, ws
+vars == <<P, dw, reg, started, ws>>
 
-(* Before the first start nothing is specified about the register. *)
+(* Power-on: initial_crc is documented as the "initial value of CRC register at reset", so a     *)
+(* Processor out of reset is in the state that `start` establishes (started = TRUE throughout;   *)
+(* the variable only marks "already printed" in the generator mode below).                       *)
 Init == /\ \E w \in Widths : P \in RegParams(w)
         /\ dw \in DataWidths
-        /\ reg \in BitVecs(P.w)
-        /\ started = FALSE
+        /\ reg = P.init
+        /\ started = TRUE
         /\ ws = <<>>
-        /\ rs = [Po \in OutVariants(P) |-> Residue(Po)]
 
 Cycle(start, valid, data) ==
     /\ valid \/ data = Zeros(dw)          \* data is not looked at without valid: one representative
     /\ reg' = NextReg(P, reg, start, valid, data)
     /\ started' = (started \/ start)
     /\ ws' = IF started \/ start THEN NextHist(ws, start, valid, data) ELSE <<>>
-    /\ UNCHANGED <<P, dw, rs>>
+    /\ UNCHANGED <<P, dw>>
 
 Next == \E start \in BOOLEAN, valid \in BOOLEAN, data \in BitVecs(dw) : Cycle(start, valid, data)
 Spec == Init /\ [][Next]_vars
@@ -159,14 +158,16 @@ MaxLen(d) == IF MaxBits \div d < MaxWords THEN MaxBits \div d ELSE MaxWords
 Constr == Len(ws) <= MaxLen(dw)
 
 (* ---- theorems (invariants of the machine) ---- *)
-(* crc, one cycle after each valid word, is the Williams CRC of the words since the last start  *)
-(* (ComputeWords(Po, ws) = Finalise(Po, AbsorbWords(Po, Po.init, ws)), and AbsorbWords does not  *)
-(* read refout / xorout, so the fold is shared between the output variants)                     *)
-CrcIsFold ==
-    started => LET r == AbsorbWords(P, P.init, ws)
-               IN \A Po \in OutVariants(P) : CrcOut(Po, reg) = Finalise(Po, r)
-(* the same through the definition, for the representative *)
-CrcIsCompute == started => CrcOut(P, reg) = ComputeWords(P, ws)
+(* The register holds the fold of the words accepted since the last start, whatever idle cycles  *)
+(* and restarts came before (so crc, one cycle after each valid word, is their Williams CRC:     *)
+(* ComputeWords(Po, ws) = Finalise(Po, AbsorbWords(Po, Po.init, ws)), and AbsorbWords does not     *)
+(* read refout / xorout).                                                                        *)
+CrcIsFold == started => reg = AbsorbWords(P, P.init, ws)
+(* The same through the definitions of the outputs: for the representative at every state, for   *)
+(* every output variant at the shortest histories.                                               *)
+CrcIsCompute ==
+    started => /\ CrcOut(P, reg) = ComputeWords(P, ws)
+               /\ Len(ws) <= 1 => \A Po \in OutVariants(P) : CrcOut(Po, reg) = ComputeWords(Po, ws)
 (* the words since start are just a bit stream *)
 RECURSIVE Flatten(_, _, _)
 Flatten(Q, seq, i) == IF i > Len(seq) THEN <<>> ELSE WireBits(Q, seq[i]) \o Flatten(Q, seq, i + 1)
@@ -181,9 +182,11 @@ MsgReg == LET k == P.w \div dw
               n == Len(ws)
           IN AbsorbWords(P, P.init, SubVec(ws, 1, n - k))
 CodewordCase == started /\ WholeWords(P, dw) /\ Len(ws) >= P.w \div dw
+(* Residue of every parameter set in range, evaluated once (a constant): Match(Po) = MatchOut(Po, reg) *)
+ResidueTable == [Q \in UNION {AllParams(w) : w \in Widths} |-> Residue(Q)]
+Match(Po) == RegOut(Po, reg) = ResidueTable[Po]
 (* a message followed by its own CRC in transmission order leaves the residue: match_detected;  *)
 (* in particular the residue does not depend on the message                                      *)
-Match(Po) == RegOut(Po, reg) = rs[Po]          \* = MatchOut(Po, reg), with the residue looked up
 OwnCrcMatches ==
     CodewordCase => LET rp == MsgReg IN \A Po \in OutVariants(P) : Codeword(Po, rp) => Match(Po)
 (* ... and the same message followed by any other trailer does not (x must not divide the        *)
@@ -212,10 +215,9 @@ GenInit == /\ \E w \in Widths : P \in RegParams(w)
            /\ reg = P.init
            /\ started = FALSE
            /\ ws = <<>>
-           /\ rs = <<>>
 GenNext == /\ ~started
            /\ started' = TRUE
-           /\ UNCHANGED <<P, dw, reg, ws, rs>>
+           /\ UNCHANGED <<P, dw, reg, ws>>
            /\ LET lv == Levels(P, dw)
               IN \A Po \in OutVariants(P) :
                     PrintT(ToString(<<777, Po.w, ToInt(Po.poly), ToInt(Po.init), IF Po.refin THEN 1 ELSE 0,
